@@ -19,7 +19,7 @@ Failure of any step is a broken tie: res.violation("translated source no longer 
 added to res.corr_obligations and the counts go to res.cov["translation_tie"].
 
 `functions`: None = every group of Equiv.v; otherwise an iterable of group names ("can",
-"descriptor", "wire", "physical", "apidecide", "netlink", "scan", "dbcid", "dbcvalidate", "lookup", "lintnames", "frametext") and/or translated function names
+"descriptor", "wire", "physical", "apidecide", "netlink", "scan", "dbcid", "dbcvalidate", "lookup", "lintnames", "frametext", "render") and/or translated function names
 ("Data_Bit", "Signal_MaxUnsigned", ...):
 the groups containing them, plus the groups those require, are checked (a group is the unit because
 the generated records contain exactly the struct fields the translated functions use).
